@@ -202,6 +202,9 @@ let model_line (e : env) (w : int) (line : string) : string =
         | en :: cf :: uc :: hx :: r' -> (int_of_string en, int_of_string cf, int_of_string uc, unhex hx) :: calls (k - 1) r'
         | _ -> failwith "hist" in
       id ^ " " ^ hist_model e kind (int_of_string cap) (calls (int_of_string n) rest)
+  | "L" :: id :: kind :: entry :: cfg :: cap :: _off :: _fill :: hx :: _ ->
+      (* alignment case: the model does not see addresses *)
+      id ^ " " ^ api_model e kind (int_of_string entry) (int_of_string cfg) (int_of_string cap) (unhex hx)
   | "R" :: id :: kind :: _cap :: n :: rest ->
       (* a recycled buffer: the model is a function of the arguments of the last call alone *)
       let rec last k r = match r with
